@@ -87,6 +87,8 @@ structure St where
   flips : Nat                     -- times `_ready` went True → False (+1 if the vault starts empty)
   removed : List Nat              -- ids of the items removed by `invalidate`
   emptyHits : Nat                 -- `invalidate` calls that met a ready, empty vault (+1 if it starts empty)
+  emptyPops : Nat                 -- `populate` calls that left `_current` empty (the login delivered nothing usable)
+  startedEmpty : Bool             -- the vault was constructed empty (initial authentication)
 
 inductive Label where
   | start (r : Nat)
@@ -125,7 +127,8 @@ def init (src : List (Key × Nat × Int)) : St :=
   let (c, n) := accept (fun _ => []) src [] 0
   { cur := c, inv := fun _ => [], ready := !c.isEmpty, nextId := n, reqs := fun _ => .idle,
     auth := .idle, invAll := fun _ => [], episodes := 0,
-    flips := if c.isEmpty then 1 else 0, removed := [], emptyHits := if c.isEmpty then 1 else 0 }
+    flips := if c.isEmpty then 1 else 0, removed := [], emptyHits := if c.isEmpty then 1 else 0,
+    emptyPops := 0, startedEmpty := c.isEmpty }
 
 def setPc (s : St) (r : Nat) (pc : Pc) : St := { s with reqs := upd s.reqs r pc }
 
@@ -166,7 +169,8 @@ def isCurrent (c : Cur) (k : Key) (it : Item) : Bool :=
 
 def populated (s : St) (src : List (Key × Nat × Int)) : St :=
   { s with cur := (accept s.inv src s.cur s.nextId).1, nextId := (accept s.inv src s.cur s.nextId).2,
-           ready := true, auth := .idle }
+           ready := true, auth := .idle,
+           emptyPops := if (accept s.inv src s.cur s.nextId).1.isEmpty then s.emptyPops + 1 else s.emptyPops }
 
 def step (s : St) : Label → Option St
   | .start r =>
